@@ -54,6 +54,8 @@ type sockConn struct {
 	// receiver once the send loop has exited) - a defect outside pkg/rpcbackend that would hide everything else.
 	ready    atomic.Bool
 	exited   bool
+	assigned int            // ids handed to established subscriptions on this connection
+	churned  int            // ids handed to churning subscriptions on this connection
 	notified map[string]int // tag -> notifications written
 	events   []string       // short trace for failure reports
 }
@@ -200,7 +202,18 @@ func (s *sockServer) ServeHTTP(w http.ResponseWriter, r *http.Request) {
 			case "eth_subscribe":
 				s.mu.Lock()
 				rec.subFrames[tok]++
-				id := fmt.Sprintf("0x%x", len(rec.idToken)+len(rec.unsubs)+1) // the same ids again on every connection
+				// Established subscriptions get the same small ids again on every connection (so that ids of a dead
+				// connection collide with live ones). The churning subscriptions get ids that are unique across
+				// connections: an Unsubscribe that was started before a drop may be sent on the next connection
+				// with the old id (requests in limbo are not asserted) and must not hit somebody else's id there.
+				var id string
+				if strings.HasPrefix(tok, "churn") {
+					rec.churned++
+					id = fmt.Sprintf("0xc%dx%d", rec.n, rec.churned)
+				} else {
+					rec.assigned++
+					id = fmt.Sprintf("0x%x", rec.assigned)
+				}
 				rec.subIDs[tok] = id
 				rec.idToken[id] = tok
 				s.mu.Unlock()
